@@ -260,7 +260,10 @@ class CuckooSystem(System):
                     for _ in range(ev[2]):
                         f.add(key)
 
-                obs = call(bulk)
+                from mc.engine import timer_mode
+
+                with timer_mode():  # 65537 adds exceed the line budget a replay runs under
+                    obs = call(bulk)
                 if obs[0] == "ok":
                     m["fp"][fp] = m["fp"].get(fp, 0) + ev[2]
             elif ev[0] == "set_auto":
